@@ -172,8 +172,23 @@ def search(rep: C.Report, tier: str, broken):
                 if not abs(s0 - want) <= 1e-09 * want:
                     rep.violation("grid3: slope at the centre is not wallThickness/ratioPointsWall",
                                   dict(info, slope=s0, expected=want), finding_key="C17:centre-slope")
-            # inverse offered by the same object
+            # inverse offered by the same object (which must leave the arrays it is given alone: physical -> compact -> physical below)
+            z, pz, pp = (np.array(a_, dtype=float) for a_ in (z, pz, pp))
+            keep = [a_.copy() for a_ in (z, pz, pp)]
             zc, pzc, ppc = g.compactify(z, pz, pp)
+            for nm, a_, k_ in zip(("z", "pz", "pp"), (z, pz, pp), keep):
+                if not np.array_equal(a_, k_):
+                    rep.violation(f"{kind}.compactify overwrote the {nm} array it was given (float64 ndarray)",
+                                  dict(info, direction=nm, before=k_.tolist(), after=a_.tolist()), finding_key=f"C17:compactify-in-place:{nm}")
+                    z, pz, pp = keep
+                    break
+            if k % 10 == 0:
+                # the coordinates cached by the grid object itself are such arrays
+                c0 = [np.array(a_, copy=True) for a_ in g.getCoordinates()]
+                g.compactify(*g.getCoordinates())
+                if not all(np.array_equal(a_, b_) for a_, b_ in zip(c0, g.getCoordinates())):
+                    rep.violation(f"{kind}.compactify(*grid.getCoordinates()) changed the coordinates stored in the grid object",
+                                  dict(info), finding_key="C17:compactify-in-place:cached")
             inner = np.abs(chis) < 0.99
             for nm, back in (("z", zc), ("pz", pzc), ("pp", ppc)):
                 err = np.max(np.abs(np.asarray(back)[inner] - chis[inner]))
